@@ -36,6 +36,10 @@ Definition t_chblank := TChoice [t_blank; TInt KU8].
 (* DEFAULT components are ordinary components for the protobuf writer/reader (write_default / read_default delegate) *)
 Definition t_definner := TSeq [r (TInt KU8); r TStr; r TBool].
 Definition t_defch := TChoice [t_definner; TInt KU8].
+(* INTEGERs with an extension marker: 64-bit Rust type, numbers::Constraint MIN / MAX = the root bounds *)
+Definition kx (sg : bool) (mn mx : Z) : pikind := KExt sg (Some mn) (Some mx).
+Definition k_xs5 := kx true (-5) 5.
+Definition k_xu255 := kx false 0 255.
 
 Definition zoo_ty (id : Z) : option pty :=
   match id with
@@ -73,6 +77,14 @@ Definition zoo_ty (id : Z) : option pty :=
   | 29 => Some t_definner
   | 30 => Some t_defch
   | 31 => Some (TSeq [r (TSeqOf t_definner); r t_defch; o t_definner])
+  | 32 => Some (TSeq [r (TInt k_xs5); r (TInt KI8); r (TInt k_xu255); r (TInt KU8); r (TInt (kx true (-128) 127));
+                      r (TInt (kx false 0 4294967295)); r (TInt KU32);
+                      r (TInt (kx true (-2147483648) 2147483647)); r (TInt KI32);
+                      r (TInt (kx true i64_min (-1))); r (TInt (KExt false None None)); r (TInt (kx false 5 i64_max));
+                      r (TInt (kx false 5 100000000000)); r (TInt (kx true (-100000000000) 5));
+                      o (TInt k_xs5); o (TInt k_xu255)])
+  | 33 => Some (TSeq [r (TSeqOf (TInt k_xs5)); r (TSeqOf (TInt k_xu255))])
+  | 34 => Some (TChoice [TInt k_xs5; TInt k_xu255; TInt KU8])
   | _ => None
   end.
 
